@@ -111,12 +111,12 @@ PROPS = {
     ),
     "C05": dict(
         title="The parser is total: no panic, no hang, bounded memory",
-        lean_modules=["Gowarc.Props.C05", "Gowarc.Props.C05total", "Gowarc.Props.C05progress"],
+        lean_modules=["Gowarc.Props.C05", "Gowarc.Props.C05total", "Gowarc.Props.C05progress", "Gowarc.Props.C05skel"],
         audit_namespaces=["Gowarc.Props.C05"],
         n_quick=6000, n_thorough=80000,
         required_theorems=["C05_readline_partition", "C05_readline_progress", "C05_http_split", "C05_junk", "C05_junk_consumes",
                            "C05_parse_total", "C05_cont_total", "C05_no_fuel_marker", "parseLoop_fuel_succ", "contLoop_fuel", "contLoop_rest_le", "readLine_rest_lt",
-                           "C05_progress", "C05_read_until_error_terminates", "readLoop_fuel_succ", "readAllRecs_complete", "parseFields_rest_le", "afterMagic_rest_le"],
+                           "C05_progress", "C05_read_until_error_terminates", "readLoop_fuel_succ", "readAllRecs_complete", "parseFields_rest_le", "afterMagic_rest_le", "C05_unmarshal_skeleton"],
         model_assumptions=["heap growth and wall-clock are only measured (worker watchdog 10 s, address-space cap), not proved", "panics inside klauspost/gzip, net/http, mime, whatwg-url are outside the model", "see level_note"],
         design_ref="DESIGN.md section 5, C05",
         level_text="All model functions are total Lean functions; the unbounded Go loops of the header parser are modelled with fuel and the fuel is PROVED adequate (C05_parse_total, C05_cont_total: with any larger fuel the result is the same, for every policy, stream and reader fault - so the loops end by themselves within stream length + 2 iterations, each consuming at least one byte); progress and partition lemmas for the line reader, the HTTP head scan and the junk search; C05_progress: whenever Unmarshal returns without error the remaining stream is strictly shorter than the one it was given (every policy, option, stream, end condition, validator verdict; gzip: the decoder reports at least one consumed byte), hence C05_read_until_error_terminates / readAllRecs_complete: the file reader's loop ends by itself with an error item (io.EOF or the first real error) and never for lack of fuel; "
@@ -138,14 +138,14 @@ PROPS = {
     ),
     "C08": dict(
         title="Error-policy coherence: ignore, warn and fail tell one story",
-        lean_modules=["Gowarc.Props.C08", "Gowarc.Props.C08mono"],
+        lean_modules=["Gowarc.Props.C08", "Gowarc.Props.C08mono", "Gowarc.Props.C05skel"],
         audit_namespaces=["Gowarc.Props.C08"],
         n_quick=1500, n_thorough=20000,
         required_theorems=["C08_ignore_unmarshal", "C08_ignore_build", "C08_fail_clean_unmarshal", "C08_fail_clean_build",
                            "C08_fail_iff_warn_unmarshal", "C08_fail_iff_warn_build", "C08_sites", "C08_switch_shapes", "C08_parser_sim",
                            "C08_monotone_unmarshal", "C08_monotone_build", "C08_axis_syn_unmarshal", "C08_axis_spec_unmarshal",
                            "C08_axis_unk_unmarshal", "C08_axis_blk_unmarshal", "C08_axis_syn_build", "C08_axis_spec_build",
-                           "C08_axis_unk_build", "C08_axis_blk_build", "C08_parser_monotone"],
+                           "C08_axis_unk_build", "C08_axis_blk_build", "C08_parser_monotone", "C08_unmarshal_skeleton"],
         model_assumptions=["see level_note"],
         design_ref="DESIGN.md section 5, C08",
         level_text="Kernel-checked for every input, reader fault, option setting and codec verdict: no finding unless some axis is at warn (so none under ignore, none under fail); fail returns an error iff warn returns an error or records a finding "
@@ -156,12 +156,12 @@ PROPS = {
     ),
     "C07": dict(
         title="Validation observes, it does not destroy what was archived",
-        lean_modules=["Gowarc.Props.C07", "Gowarc.Props.C07parser", "Gowarc.Props.C07repairs", "Gowarc.Props.C07fault"],
+        lean_modules=["Gowarc.Props.C07", "Gowarc.Props.C07parser", "Gowarc.Props.C07repairs", "Gowarc.Props.C07fault", "Gowarc.Props.C05skel"],
         audit_namespaces=["Gowarc.Props.C07"],
         n_quick=1500, n_thorough=20000,
         required_theorems=["C07_validate_keeps_header", "C07_observe", "C07_policy_independent", "C07_block_complete", "C07_parser_policy_independent",
                            "C07_repairs_only", "C07_repairs_only_getAll", "validateDigest_others", "parseBlock_others", "others_set",
-                           "C07_fault_explicit", "parseBlock_fault_kind", "validateDigest_fault"],
+                           "C07_fault_explicit", "parseBlock_fault_kind", "validateDigest_fault", "C07_unmarshal_skeleton"],
         model_assumptions=["C07_fault_explicit: a block cut short by a READ ERROR (the stream fails before the declared number of bytes was delivered) is never handed out: Unmarshal returns an error under every policy and option setting, for every block kind (the oracle c07-fault-swallowed judges the same on the implementation for plain streams under all 81 policy combinations)",
                            "C07_repairs_only: with ANY repair options and policies, the header of the record Unmarshal returns equals the parsed header on every field other than Content-Length, WARC-Block-Digest and WARC-Payload-Digest: same names, values, multiplicities and relative order (others r.hdr = others fs)", "see level_note"],
         design_ref="DESIGN.md section 5, C07",
@@ -232,12 +232,12 @@ PROPS = {
     ),
     "C06": dict(
         title="Truncated files: complete records survive and the cut is visible",
-        lean_modules=["Gowarc.Props.C06", "Gowarc.Props.C06built", "Gowarc.Props.C06header", "Gowarc.Props.C06after"],
+        lean_modules=["Gowarc.Props.C06", "Gowarc.Props.C06built", "Gowarc.Props.C06header", "Gowarc.Props.C06after", "Gowarc.Props.C05skel"],
         audit_namespaces=["Gowarc.Props.C06"],
         n_quick=25, n_thorough=300,
         required_theorems=["C06_survive", "C06_survive_cut", "C06_short_tail", "C06_cut_version_line", "C06_trailer_or_finding", "readLoop_succ",
                            "C06_members_survive", "C06_cut_behind_header", "allReadAs_of_readsBack",
-                           "C06_cut_in_header", "C06_visible_plain", "C06_nothing_clean_after", "readLoop_no_clean", "unmarshal_short", "unmarshal_cut_version"],
+                           "C06_cut_in_header", "C06_visible_plain", "C06_nothing_clean_after", "readLoop_no_clean", "unmarshal_short", "unmarshal_cut_version", "C06_unmarshal_skeleton"],
         model_assumptions=["C06_survive is relative to the codec law `ReadsAs` (each complete member reads as a clean record for every continuation); for plain members that are marshalled records of the strict builder the law is now a theorem (C01_accepts, any tail, any end condition) and C06_members_survive states survival for such files without that hypothesis; for gzip members it stays validated per file (`wf=t`: implementation and model read the uncut file as clean records at the generated boundaries)",
                            "C06_visible_plain (all cut positions of a plain record: fewer than five bytes, inside the version line, inside the header section - Lemmas/CutHeader.lean: the header parser never takes a cut section for a complete one -, inside block or trailer) and C06_nothing_clean_after (reading the cut remainder yields no clean record at all): the three clauses of the property are now theorems for plain files of strictly built records; gzip members rest on the codec law (readsBack_gzip) for survival and on the exhaustive enumeration for cuts inside a member",
                            "C06_cut_behind_header: for every record with clean fields and truthful Content-Length, every block content and every cut position inside the block or the four trailer bytes, Unmarshal returns an error or a record carrying the trailer finding (spec policy warn/fail)",
